@@ -444,10 +444,11 @@ PROPS = {
                                                                                  ("mpq_QSread_prob", "mpq_QSget_prob", "mpq_QSread_basis", "mpq_QSread_and_load_basis")]))),
                   lambda prog, tier: div.run(prog), lambda prog, tier: counter.run(prog),
                   lambda prog, tier: errlost.run(prog, scope_funcs=set(prog.reachable([prog.require_fn(r).key for r in
-                                                                                     ("mpq_QSread_prob", "mpq_QSget_prob", "mpq_QSread_basis", "mpq_QSread_and_load_basis")])), floor=60),
+                                                                                     ("mpq_QSread_prob", "mpq_QSget_prob", "mpq_QSread_basis", "mpq_QSread_and_load_basis")])), floor=50),
                   lambda prog, tier: allockind.run(prog),
                   lambda prog, tier: strscan.run(prog),
                   lambda prog, tier: rawidx.run(prog),
+                  lambda prog, tier: idx.run(prog),
                   lambda prog, tier: fmt.run(prog, scope=lambda f, _r=set(prog.reachable([prog.require_fn(r).key for r in
                                                                                           ("mpq_QSread_prob", "mpq_QSget_prob", "mpq_QSread_basis", "mpq_QSread_and_load_basis")])): f.key in _r, floor=200)],
         "technique": "census and classification of buffer-writing calls in the reader call-graph closures (destination array sizes from the "
@@ -701,7 +702,9 @@ _ADD = {
                            "tests it against NUL, and every loop that walks a char pointer has an exit test that NUL fails (value enumeration of the "
                            "condition for NUL). (R-FMT) no text of the input (a name, a line) is used as a format string on a reader path; "
                            "(R-ERRLOST) the error code of a failing callee is examined before it is overwritten. (R-RAWIDX) in the raw-to-LP "
-                           "conversion no array of the converted LP is subscripted with a raw index and vice versa (index-space typing per loop).",
+                           "conversion no array of the converted LP is subscripted with a raw index and vice versa (index-space typing per loop). "
+                           "(R-IDX) an index obtained from a name of the input (symbol-table lookup, directly or through ILLlib_colindex / rowindex) "
+                           "subscripts a basis or problem array only after a test that excludes -1 / negatives (the basis reader).",
             "level_text": " (R-ALLOCKIND) arrays of exact numbers are created by the number-array allocator, never by a raw realloc (an MPS "
                           "file with an SOS section crashed the rational reader on the pinned tree).",
             "technique": "; census of printf-like calls (set computed from the declarations) with literal / forwarded-format discharge; "
